@@ -334,7 +334,9 @@ def create_preserves(struct, sub, g, e0, e1, w0, w1):
         arrays = [root]
     for i, p in enumerate(arrays):
         sx.assume(sx.implies(wr[i], ex[i]))  # chunks can only have been written to an existing array
-        nodes[p] = zm.Node("array", None, ex[i])
+        # an array left by an earlier execution of the same plan has the declared layout (other layouts: C05 create-opens-declared-grid)
+        fdt = dtype.fields[fields[i]][0] if st else dtype
+        nodes[p] = zm.Node("array", None, ex[i], dict(shape=(4,), dtype=fdt, chunks=(2,)))
     model = zm.ZarrModel(nodes)
     written_before = {p: wr[i] for i, p in enumerate(arrays)}
     for i, p in enumerate(arrays):
